@@ -252,24 +252,16 @@ func (o *OvsdbServer) Monitor(client *rpc2.Client, args []json.RawMessage, reply
 		}
 	}
 
-	transaction := o.db.NewTransaction(db)
-
+	mon := o.bindMonitor(newMonitor(value, request, client), db)
 	tableUpdates := make(ovsdb.TableUpdates)
-	for t, request := range request {
-		op := ovsdb.Operation{Op: ovsdb.OperationSelect, Table: t, Columns: request.Columns}
-		result, _ := transaction.Transact(op)
-		if len(result) == 0 || len(result[0].Rows) == 0 {
-			continue
-		}
-		rows := result[0].Rows
+	for t, rows := range o.initialRows(db, mon) {
 		tableUpdates[t] = make(ovsdb.TableUpdate, len(rows))
-		for i := range rows {
-			uuid := rows[i]["_uuid"].(ovsdb.UUID).GoUUID
-			tableUpdates[t][uuid] = &ovsdb.RowUpdate{New: &rows[i]}
+		for uuid, row := range rows {
+			tableUpdates[t][uuid] = &ovsdb.RowUpdate{New: row}
 		}
 	}
 	*reply = tableUpdates
-	o.monitors[client].monitors[value] = o.bindMonitor(newMonitor(value, request, client), db)
+	o.monitors[client].monitors[value] = mon
 	return nil
 }
 
@@ -298,24 +290,16 @@ func (o *OvsdbServer) MonitorCond(client *rpc2.Client, args []json.RawMessage, r
 		}
 	}
 
-	transaction := o.db.NewTransaction(db)
-
+	mon := o.bindMonitor(newConditionalMonitor(value, request, client), db)
 	tableUpdates := make(ovsdb.TableUpdates2)
-	for t, request := range request {
-		op := ovsdb.Operation{Op: ovsdb.OperationSelect, Table: t, Columns: request.Columns}
-		result, _ := transaction.Transact(op)
-		if len(result) == 0 || len(result[0].Rows) == 0 {
-			continue
-		}
-		rows := result[0].Rows
+	for t, rows := range o.initialRows(db, mon) {
 		tableUpdates[t] = make(ovsdb.TableUpdate2, len(rows))
-		for i := range rows {
-			uuid := rows[i]["_uuid"].(ovsdb.UUID).GoUUID
-			tableUpdates[t][uuid] = &ovsdb.RowUpdate2{Initial: &rows[i]}
+		for uuid, row := range rows {
+			tableUpdates[t][uuid] = &ovsdb.RowUpdate2{Initial: row}
 		}
 	}
 	*reply = tableUpdates
-	o.monitors[client].monitors[value] = o.bindMonitor(newConditionalMonitor(value, request, client), db)
+	o.monitors[client].monitors[value] = mon
 	return nil
 }
 
@@ -344,24 +328,16 @@ func (o *OvsdbServer) MonitorCondSince(client *rpc2.Client, args []json.RawMessa
 		}
 	}
 
-	transaction := o.db.NewTransaction(db)
-
+	mon := o.bindMonitor(newConditionalSinceMonitor(value, request, client), db)
 	tableUpdates := make(ovsdb.TableUpdates2)
-	for t, request := range request {
-		op := ovsdb.Operation{Op: ovsdb.OperationSelect, Table: t, Columns: request.Columns}
-		result, _ := transaction.Transact(op)
-		if len(result) == 0 || len(result[0].Rows) == 0 {
-			continue
-		}
-		rows := result[0].Rows
+	for t, rows := range o.initialRows(db, mon) {
 		tableUpdates[t] = make(ovsdb.TableUpdate2, len(rows))
-		for i := range rows {
-			uuid := rows[i]["_uuid"].(ovsdb.UUID).GoUUID
-			tableUpdates[t][uuid] = &ovsdb.RowUpdate2{Initial: &rows[i]}
+		for uuid, row := range rows {
+			tableUpdates[t][uuid] = &ovsdb.RowUpdate2{Initial: row}
 		}
 	}
 	*reply = ovsdb.MonitorCondSinceReply{Found: false, LastTransactionID: "00000000-0000-0000-000000000000", Updates: tableUpdates}
-	o.monitors[client].monitors[value] = o.bindMonitor(newConditionalSinceMonitor(value, request, client), db)
+	o.monitors[client].monitors[value] = mon
 	return nil
 }
 
@@ -396,6 +372,41 @@ func (o *OvsdbServer) Echo(client *rpc2.Client, args []interface{}, reply *[]int
 	copy(echoReply, args)
 	*reply = echoReply
 	return nil
+}
+
+// initialRows returns the current contents of the tables a monitor watches,
+// restricted to the requested columns, for the tables whose initial contents
+// were selected.
+func (o *OvsdbServer) initialRows(db string, m *monitor) map[string]map[string]*ovsdb.Row {
+	tables := make([]string, 0, len(m.request))
+	for t := range m.request {
+		tables = append(tables, t)
+	}
+	if len(tables) == 0 {
+		for t := range m.schema.Tables {
+			tables = append(tables, t)
+		}
+	}
+	initial := make(map[string]map[string]*ovsdb.Row)
+	transaction := o.db.NewTransaction(db)
+	for _, t := range tables {
+		cols, sel, _ := m.tableRequest(t)
+		if !sel.Initial() || m.schema.Table(t) == nil {
+			continue
+		}
+		op := ovsdb.Operation{Op: ovsdb.OperationSelect, Table: t}
+		result, _ := transaction.Transact(op)
+		if len(result) == 0 || result[0] == nil || len(result[0].Rows) == 0 {
+			continue
+		}
+		rows := result[0].Rows
+		initial[t] = make(map[string]*ovsdb.Row, len(rows))
+		for i := range rows {
+			uuid := rows[i]["_uuid"].(ovsdb.UUID).GoUUID
+			initial[t][uuid] = filterColumns(&rows[i], cols)
+		}
+	}
+	return initial
 }
 
 // bindMonitor records the database a monitor is for
